@@ -1,3 +1,4 @@
+import OptunaVerif.Model.Basic
 /-
   The parent-population cache of the GA samplers (optuna/samplers/_ga/_base.py,
   `BaseGASampler.get_parent_population`), and the variant that NSGA-III uses
@@ -15,6 +16,7 @@
   Only two facts about a trial matter here: its storage id and its number.  Core Lean only.
 -/
 namespace OptunaVerif.GACache
+open OptunaVerif
 
 /-- What the cache sees of a `FrozenTrial`. -/
 structure T where
@@ -47,5 +49,113 @@ def roundTrip (write : List T → List Nat) (trials parents : List T) : Option (
 def contiguous (off : Nat) : Nat → List T
   | 0 => []
   | n + 1 => contiguous off n ++ [⟨off + n, n⟩]
+
+/-! ## the methods of `BaseGASampler` around the cache (`get_trial_generation`, `get_population`,
+`get_parent_population`) and NSGA-II's `select_parent` / `sample_relative` bookkeeping
+
+A trial is (`_trial_id`, `number`, the sampler's generation system attribute, `state`); the study's trial list is
+ordered by number; the study system attributes are a map cache key ↦ list of ints, the key of generation `g`
+being `prefix + str(g)` (injective in `g`, modelled as `g`).  The elite selection strategy is a parameter.
+(`Props/C09Gen.lean` proves the methods generated from the source equal to these.) -/
+
+structure GT where
+  id : Nat
+  number : Nat
+  gen : Option Nat        -- `system_attrs.get(<generation key>)`
+  state : TState
+deriving DecidableEq, Repr, Inhabited
+
+def GT.toT (t : GT) : T := ⟨t.id, t.number⟩
+
+/-- the generation attribute as the scan of `get_trial_generation` reads it (`.get(key, -1)`) -/
+def GT.genOr (t : GT) : Int :=
+  match t.gen with
+  | some g => (g : Int)
+  | none => -1
+
+/-- the loop `for t in reversed(trials)` of `get_trial_generation` on the already reversed list: the running
+`(max_generation, max_generation_count)` -/
+def scanGen : List GT → Int × Nat → Int × Nat
+  | [], acc => acc
+  | t :: rest, (mx, cnt) =>
+    if t.genOr < mx then scanGen rest (mx, cnt)
+    else if t.genOr > mx then scanGen rest (t.genOr, 1)
+    else scanGen rest (mx, cnt + 1)
+
+/-- `study._get_trials(deepcopy=False, states=[COMPLETE], …)` -/
+def completeOf (trials : List GT) : List GT := trials.filter (fun t => t.state == .complete)
+
+/-- `get_trial_generation(study, trial)`: the generation, and the system-attr write
+`(trial id written to, value)` when the attribute was not set yet (`popSize` = `self._population_size`, asserted
+to be set). -/
+def trialGeneration (popSize : Nat) (trials : List GT) (cur : GT) : Int × Option (Nat × Int) :=
+  match cur.gen with
+  | some g => ((g : Int), none)
+  | none =>
+    let r := scanGen (completeOf trials).reverse (0, 0)
+    let g := if r.2 < popSize then r.1 else r.1 + 1
+    (g, some (cur.id, g))
+
+/-- `get_population(study, generation)` -/
+def population (trials : List GT) (g : Nat) : List GT :=
+  trials.filter (fun t => t.state == .complete && t.gen == some g)
+
+/-- the study system attributes as the cache sees them: generation ↦ cached list -/
+abbrev Store := List (Nat × List Nat)
+
+def Store.get? (s : Store) (g : Nat) : Option (List Nat) :=
+  match s with
+  | [] => none
+  | (k, v) :: rest => if k = g then some v else Store.get? rest g
+
+def Store.set (s : Store) (g : Nat) (v : List Nat) : Store :=
+  match s with
+  | [] => [(g, v)]
+  | (k, w) :: rest => if k = g then (g, v) :: rest else (k, w) :: Store.set rest g v
+
+/-- READ on full trials: the cached values as indices into the trial list -/
+def readG (trials : List GT) : List Nat → Option (List GT)
+  | [] => some []
+  | i :: rest =>
+    match trials[i]?, readG trials rest with
+    | some t, some r => some (t :: r)
+    | _, _ => none
+
+/-- `get_parent_population(study, generation)`; `select g st` is `self.select_parent(study, g)` run on the store
+`st` (it may fill the caches of earlier generations); `none` = `IndexError` -/
+def parentPopulation (select : Nat → Store → List GT × Store) (trials : List GT) (st : Store) (g : Nat) :
+    Option (List GT) × Store :=
+  if g = 0 then (some [], st)
+  else
+    match st.get? g with
+    | some ids => (readG trials ids, st)
+    | none =>
+      let r := select g st
+      (some r.1, r.2.set g (r.1.map (·.id)))
+
+/-- NSGA-II: `get_parent_population` with `select_parent(study, g) = elite(get_population(g-1) +
+get_parent_population(g-1))`, by recursion on the generation; an `IndexError` below propagates -/
+def nsga2Parents (elite : List GT → List GT) (trials : List GT) : Nat → Store → Option (List GT) × Store
+  | 0, st => (some [], st)
+  | g + 1, st =>
+    match st.get? (g + 1) with
+    | some ids => (readG trials ids, st)
+    | none =>
+      match nsga2Parents elite trials g st with
+      | (none, st') => (none, st')
+      | (some pp, st') =>
+        let sel := elite (population trials g ++ pp)
+        (some sel, st'.set (g + 1) (sel.map (·.id)))
+
+/-- `NSGAIISampler.sample_relative` as far as it is bookkeeping: the generation of the trial (written when new),
+and the parents handed to the child-generation strategy (`some []` = "return {}") -/
+def nsga2SampleRelative (elite : List GT → List GT) (popSize : Nat) (trials : List GT) (st : Store) (cur : GT) :
+    Option (Nat × Int) × Option (List GT) × Store :=
+  let tg := trialGeneration popSize trials cur
+  let r := nsga2Parents elite trials tg.1.toNat st
+  (tg.2, r.1, r.2)
+
+/-- forget the storage ids (what a storage-independent function may depend on) -/
+def eraseIds (trials : List GT) : List GT := trials.map (fun t => { t with id := 0 })
 
 end OptunaVerif.GACache
